@@ -490,7 +490,8 @@ def finish(ctx, rule, level_note_extra=None):
         n_viol += 1
     # 2. broken obligations / correspondence with no failing input found
     broken = ctx.broken_obligations()
-    unexplained = (broken or ctx.corr_breaks) and not ctx.input_violations
+    # a broken obligation / correspondence is explained only by a failing input that is NOT a listed known finding
+    unexplained = (broken or ctx.corr_breaks) and n_viol == 0
     if unexplained:
         path = write_replay(ctx, "obligation", {
             "broken_theorems_or_obligations": [{"name": n, "detail": d} for n, d in broken],
